@@ -39,8 +39,9 @@ SEMANTIC_TIE = code_tie.functions("C05")   # Go bodies proved equal to the model
 
 ERR = {"not_found": "ENotFound", "exists": "EExists", "key_too_long": "EKeyTooLong", "decode": "EDecode",
        "user": "EUser", "unordered": "EUnordered", "cancel": "ECancel", "other": "EOther", "panic": "EPanic",
-       "upanic": "EPanic"}   # upanic: the user callback's own panic value came back out of the call
-BAD = ("other", "panic", "hang", "partial-modified", "caller-memory-written")
+       "upanic": "EPanic",   # upanic: the user callback's own panic value came back out of the call
+       "busy": "EBusy"}      # nothing else is in progress in these histories: never a legitimate answer
+BAD = ("other", "panic", "hang", "partial-modified", "caller-memory-written", "busy")
 LIFE = ("create", "createmissing", "destroy", "tcreate", "tcreatemissing", "tdestroy")
 
 # long byte strings of a case: "hh*n" pieces joined by '+' in arguments, "@len:sha256" in observations
@@ -610,6 +611,13 @@ def run(ck):
         for key, what, replay in impl_oracle(c):
             failing.add(c["i"])
             ck.violation(key, what, replay)
+        if c.get("setup_err"):
+            prev = cases[cases.index(c) - 1] if cases.index(c) > 0 else c
+            ck.violation("impl:locked-after-history:" + c["setup_err"].split(":")[0],
+                         "a table could not be dropped / created on the sqlite database after a history had ended "
+                         "(%s): a call of that history left a lock or a transaction behind" % c["setup_err"],
+                         {"history_before": prev["ops"], "this_history": c["ops"],
+                          "expected": "when every call has returned nothing of it remains"})
     single = [c for c in cases if not c.get("multi")]
     for c in single[:1] + single[20:22]:
         ck.sample({"stream": c["stream"], "ops": c["ops"][:6], "obs_mem_ordered": c["obs"]["mo"][:6],
